@@ -199,7 +199,7 @@ def device_on_states(ctx, repo, rule, T):
                    f"{cname}.is_on reads {got!r} for a device whose state item (labels {list(labels)}, as for {d} in {stem}) reads {state!r}; expected {want}: "
                    f"a running {'waterfall / pump' if cname == 'GeckoPump' else 'blower'} must count as on when the facade chooses between the active and the idle timing table",
                    repo.method(cname, "is_on").loc, sample={"rule": rule, "class": cname, "labels": list(labels), "state": state, "is_on": str(got)} if n % 3 == 1 else None)
-    ctx.floor(rule, "device state valuations", n, 12)
+    ctx.floor(rule, "device state valuations", n, 8)
 
 
 # ------------------------------------------------------------------------------------------------ C12 scan
